@@ -212,10 +212,10 @@ def run_shard(shard, tier, seed):
                         # the previous rule changed the shared definition: it was used once more in that
                         # state (one follow-up rule), now start again from a fresh definition
                         la, dirty = mk_layered_architecture(layer_defs(layers, style), seed), False
+                        if shared_base is not None:
+                            shared_base = LayerRule().based_on(la)  # the shared rule base follows the fresh definition
                     v = judge(ns, I, layers, style, spec, ev, seed, res, la=la)
                     if v is None and shared_base is not None:
-                        if dirty:
-                            shared_base = LayerRule().based_on(la)
                         v = judge(ns, I, layers, style, spec, ev, seed, res, la=la, base=shared_base)
                         res.stats["shared-layer-rule-base"] += 1
                         if v:
